@@ -13,8 +13,12 @@ Record KV := {
   kv_st : Type;
   kv_put : bytes -> bytes -> kv_st -> kv_st;      (* DB.Put *)
   kv_del : bytes -> kv_st -> kv_st;               (* DB.Delete *)
-  kv_scan : bytes -> kv_st -> kvlist;             (* DB.ScanPrefix, in the order yielded *)
-  kv_restore : kv_st -> kv_st                     (* DB.Checkpoint(id) ... dkv.Open(handles of id) *)
+  (* DB.ScanPrefix, in the order yielded. A read returns a state too: it leaves the contents alone, but background
+     work (flush, compaction) may proceed while it runs - see Model/StateStoreLsm.v *)
+  kv_scan : bytes -> kv_st -> kvlist * kv_st;
+  (* dkv.Open(handles of id): [kv_restore current saved] - the database captured by DB.Checkpoint(id) reopened; the
+     current state is passed so that an instance can keep what is not part of the database (a schedule) *)
+  kv_restore : kv_st -> kv_st -> kv_st
 }.
 
 (* SPEC of the DKV (what C07/C08/C18 prove the real LSM refines): a strictly ascending association list *)
@@ -43,7 +47,7 @@ Fixpoint sm_del (k : bytes) (m : kvlist) : kvlist :=
 Definition sm_scan (p : bytes) (m : kvlist) : kvlist := filter (fun kv => is_prefix p (fst kv)) m.
 
 Definition list_kv : KV :=
-  {| kv_st := kvlist; kv_put := sm_put; kv_del := sm_del; kv_scan := sm_scan; kv_restore := fun m => m |}.
+  {| kv_st := kvlist; kv_put := sm_put; kv_del := sm_del; kv_scan := fun p m => (sm_scan p m, m); kv_restore := fun _ m => m |}.
 
 (* ---------------------------------------------------------------- stored keys
    The encoders of Model/KeyCodec.v with the key-group function as a parameter ([kgf] = [key_group count] in a
@@ -106,8 +110,9 @@ Section Store.
   Variable K : KV.
   Variable kgf : bytes -> N.                                  (* KeySpace.KeyGroup of the deployment *)
 
-  Definition get_state (k : bytes) (s : kv_st K) : option (list ns_state) :=
-    option_map group_ns (decode_entries (kv_scan K (enc_subject kgf k) s)).
+  Definition get_state (k : bytes) (s : kv_st K) : option (list ns_state * kv_st K) :=
+    let (l, s') := kv_scan K (enc_subject kgf k) s in
+    match decode_entries l with Some es => Some (group_ns es, s') | None => None end.
 
   Definition apply_mutation (k ns : bytes) (s : kv_st K) (m : mutation) : kv_st K :=
     match m with
@@ -138,13 +143,17 @@ Section Store.
     | k :: l' => if mem_bytes k seen then distinct_keys seen l' else k :: distinct_keys (k :: seen) l'
     end.
 
-  Fixpoint fetch_states (ks : list bytes) (s : kv_st K) : option (list key_state) :=
+  Fixpoint fetch_states (ks : list bytes) (s : kv_st K) : option (list key_state * kv_st K) :=
     match ks with
-    | [] => Some []
+    | [] => Some ([], s)
     | k :: ks' =>
-        match get_state k s, fetch_states ks' s with
-        | Some st, Some r => Some ((k, st) :: r)
-        | _, _ => None
+        match get_state k s with
+        | Some (st, s1) =>
+            match fetch_states ks' s1 with
+            | Some (r, s2) => Some ((k, st) :: r, s2)
+            | None => None
+            end
+        | None => None
         end
     end.
 
@@ -157,10 +166,10 @@ Section Store.
     | _ =>
         match fetch_states (distinct_keys [] (map fst evs)) s with
         | None => None
-        | Some sts =>
+        | Some (sts, s1) =>
             let rq := {| rq_states := sts; rq_events := evs |} in
             let rs := h rq in
-            Some (Some (rq, rs), fold_left apply_result rs s)
+            Some (Some (rq, rs), fold_left apply_result rs s1)
         end
     end.
 
@@ -188,7 +197,7 @@ Section Store.
         Some {| sy_db := sy_db y; sy_saved := (id, sy_db y) :: sy_saved y; sy_trace := sy_trace y |}
     | SRestore id =>
         match lookup_ckpt id (sy_saved y) with
-        | Some s => Some {| sy_db := kv_restore K s; sy_saved := sy_saved y; sy_trace := sy_trace y |}
+        | Some s => Some {| sy_db := kv_restore K (sy_db y) s; sy_saved := sy_saved y; sy_trace := sy_trace y |}
         | None => Some y                      (* unknown handle: the deploy fails in Go; not a history *)
         end
     end.
